@@ -17,7 +17,7 @@ META = dict(
     "raising listener; events: single, two per read, split across reads, empty body, non-JSON body; (thorough) a listener that unregisters itself}; oracle: after every "
     "successful secure (re)connection the accessory's per-session ev registrations include pairing.subscriptions unless a subscription request was cut off, every listener "
     "saw the {} 'back' callback, every event reaches every then-registered listener exactly once in order keyed (aid,iid), a raising listener neither starves others nor "
-    "closes the transport Also: accessories that refuse one characteristic of a request (207 with a row per characteristic), every block boundary inside an EVENT x HTTP style x {one read, two reads} followed by a second event, and configurations under byte-wise reads / reads ending inside a block / chunked lower-case HTTP. BLE leg (c12_ble.py): all histories up to depth D over {subscribe calls with overlapping sets, the start-notify timer, "
+    "closes the transport Also: accessories that refuse one characteristic of a request (207 with a row per characteristic), every block boundary inside an EVENT x HTTP style x {one read, two reads} followed by a second event, and configurations under byte-wise reads / reads ending inside a block / chunked lower-case HTTP. CoAP subscriptions: all histories up to length 4 (5) over {subscribe / unsubscribe of overlapping sets, mDNS endpoint change, use, accessory restart, event}: the accessory's current session has a registration for everything subscribed whenever the pairing is connected. BLE leg (c12_ble.py): all histories up to depth D over {subscribe calls with overlapping sets, the start-notify timer, "
     "a change announced by an empty GATT notification, a burst over all enabled characteristics, a storm on one, link drop, reconnect by the next use, one CCCD write that fails while the link stays up, a raising listener} "
     "against a real BlePairing and the reference GATT accessory: every subscription has notifications enabled on the live connection once quiescent, every announced change ends up delivered, deliveries follow the accessory's value history.",
     note="bounded depth D; the accessory model registers ev per session as HAP specifies and never pushes events on its own",
@@ -368,6 +368,75 @@ def case_event_splits(p):
     return out
 
 
+COAP_SUBS = ["sub:A", "sub:B", "sub:C", "unsub:A", "endpoint-change", "use", "accessory-restarts", "event"]
+COAP_SETS = {"A": [(1, 9), (1, 10)], "B": [(1, 10), (2, 13)], "C": [(1, 10)]}
+
+
+def case_coap_subs(p):
+    """The subscription half of the property on CoAP: histories over {subscribe / unsubscribe of overlapping sets, an endpoint change announced
+    by mDNS (the session is given up), a use (which reconnects), an accessory that restarted (its session and registrations are gone), an
+    event}.  Whenever the pairing is connected and quiescent, the accessory's CURRENT session has a registration for everything subscribed."""
+    from vt.env.coaprig import CoapRig
+    from vt.env.reconn import mk_description
+    from vt.ref import coapacc
+
+    rig = CoapRig(seed=p.get("seed", 0))
+    out = []
+    try:
+        got = []
+        rig.pairing.dispatcher_connect(lambda ev: got.append(dict(ev)))
+        rig.pairing.description = mk_description(["fd00::5"], port=5683)
+        rig.run(rig.pairing.list_accessories_and_characteristics())
+        model = set()
+        addr = "fd00::5"
+        n = 0
+        for k, sym in enumerate(p["history"]):
+            kind, _, arg = sym.partition(":")
+            det = {"history": p["history"][: k + 1]}
+            try:
+                if kind == "sub":
+                    model |= set(COAP_SETS[arg])
+                    rig.run(rig.pairing.subscribe(list(COAP_SETS[arg])))
+                elif kind == "unsub":
+                    model -= set(COAP_SETS[arg])
+                    rig.run(rig.pairing.unsubscribe(list(COAP_SETS[arg])))
+                elif kind == "endpoint-change":
+                    addr = "fd00::6" if addr == "fd00::5" else "fd00::5"
+                    rig.pairing._async_description_update(mk_description([addr], port=5683))
+                    rig.loop.run_until_idle()
+                elif kind == "use":
+                    rig.run(rig.pairing.get_characteristics([(1, 9)]))
+                elif kind == "accessory-restarts":
+                    rig.acc.session = None
+                elif kind == "event":
+                    if rig.acc.session is not None and 10 in rig.acc.session.get("subs", ()) and rig.pairing.is_connected:
+                        n += 1
+                        before = len(got)
+                        rig.deliver_event([(10, coapacc.pack_value(rig.acc.chars[10].format, n))])
+                        if [ev for ev in got[before:] if (1, 10) in ev] != [{(1, 10): {"value": n}}]:
+                            out.append(("coap-subs:event-for-a-subscribed-characteristic-not-delivered-exactly-once", dict(det, got=[{str(a): b for a, b in ev.items()} for ev in got[before:]])))
+            except Exception as e:  # noqa: BLE001
+                from aiohomekit.exceptions import HomeKitException
+
+                if not isinstance(e, HomeKitException):
+                    out.append((f"coap-subs:raises:{type(e).__name__}:{kind}", dict(det, err=str(e)[:160])))
+                elif kind in ("sub", "unsub"):
+                    break  # a (un)subscription request that failed on the way: the property excuses what follows
+            rig.loop.run_until_idle()
+            if rig.pairing.is_connected and rig.acc.session is not None:
+                have = set(rig.acc.session.get("subs", ()))
+                missing = sorted(i for _, i in model if i not in have)
+                if missing:
+                    out.append(("coap-subs:subscribed-characteristic-not-registered-in-the-current-session", dict(det, missing=missing, registered=sorted(have), subscribed=sorted(model))))
+            if sorted(rig.pairing.subscriptions) != sorted(model):
+                out.append(("coap-subs:pairing-subscriptions-differ-from-what-the-caller-asked-for", dict(det, pairing=sorted(rig.pairing.subscriptions), asked=sorted(model))))
+            if out:
+                break
+    finally:
+        rig.close()
+    return out
+
+
 COAP_EV = ["ev", "ev2", "ev-novalue", "ev+novalue", "replay", "junk", "raiser"]  # -novalue: an entry that is only its header (the accessory reports a change without a value)
 
 
@@ -451,7 +520,7 @@ def case_ble_subs(p):
         h.close()
 
 
-CASES = {"ble_subs": case_ble_subs, "explore": case_explore, "event_splits": case_event_splits, "coap_events": case_coap_events}
+CASES = {"coap_subs": case_coap_subs, "ble_subs": case_ble_subs, "explore": case_explore, "event_splits": case_event_splits, "coap_events": case_coap_events}
 
 
 def _work_coap(item, seed, tier):
@@ -463,6 +532,18 @@ def _work_coap(item, seed, tier):
         acc.traces += 1
         for sig, detail in v:
             acc.violation(sig, "coap_events", p, detail)
+    return acc
+
+
+def _work_coap_subs(item, seed, tier):
+    acc = core.Acc()
+    for hist in item:
+        p = {"history": list(hist), "seed": seed}
+        v = case_coap_subs(p)
+        acc.case(key=("coap_subs", tuple(hist)), outcome=f"coap_subs:{'ok' if not v else v[0][0]}", sample={"case": "coap_subs", "params": p}, symbols=("coap_subs",) + tuple(f"coapsub:{s_.split(':')[0]}" for s_ in hist))
+        acc.traces += 1
+        for sig, detail in v:
+            acc.violation(sig, "coap_subs", p, detail)
     return acc
 
 
@@ -539,6 +620,9 @@ def run(ctx):
     hists = [h for n in range(1, (4 if quick else 6) + 1) for h in itertools.product(COAP_EV, repeat=n) if h.count("raiser") <= 1 and any(x.startswith("ev") for x in h)]
     ctx.pmap(_work_coap, [hists[i : i + 40] for i in range(0, len(hists), 40)])
     ctx.bounds.update(coap_event_histories=len(hists), coap_event_alphabet=COAP_EV)
+    shists = [h for n in range(1, (4 if quick else 5) + 1) for h in itertools.product(COAP_SUBS, repeat=n) if any(x.startswith("sub") for x in h)]
+    ctx.pmap(_work_coap_subs, [shists[i : i + 60] for i in range(0, len(shists), 60)])
+    ctx.bounds.update(coap_subscription_histories=len(shists), coap_subscription_alphabet=COAP_SUBS)
     styles = [None, "chunked", "chunked-2", "chunked-lower"] + ([] if quick else ["lower", "upper", "mixed", "lws", "extra-headers", "no-ctype"])
     ctx.pmap(_work_splits, [dict(style=st) for st in styles])
     ctx.bounds.update(event_split_sweep="every block boundary inside an EVENT x HTTP style x {one read, two reads}", event_styles=styles)
